@@ -174,6 +174,8 @@ def run_segment(seg):
             args = eval(ent.get("args_src", "()"), ns)
             kwargs = eval(ent.get("kwargs_src", "{}"), ns)
             opts = dict(ent.get("options") or {})
+            if mode == "impl" and opts.get("dds_stages") is not None:
+                opts["dds_stages"] = [dds.ProcessingStage[x[5:]] if isinstance(x, str) and x.startswith("ENUM:") else x for x in opts["dds_stages"]]
             style = ent["style"]
             if style == "script":
                 import runpy
@@ -220,6 +222,10 @@ def run_segment(seg):
             so["has"] = [(a[0], r) for a, r in cap.ops("has_blob")]
             so["fetched"] = [a[0] for a, r in cap.ops("fetch_blob")]
             so["all_paths"] = list(all_paths_rec)
+            if seg.get("tree_hash") and seg.get("store", {}).get("dir"):
+                from vp import storemodel as SM
+
+                so["tree"] = SM.tree_hash(seg["store"]["dir"])
             try:
                 from dds import _api
 
